@@ -387,11 +387,15 @@ def main(tier, seed):
                 msg = "well-formed binary %s is not read to its value: stored %s, severity %d, %d bytes left (expected %d)" % (lit, val, sev, remaining, len(body) - len(lit))
             elif written != lit:
                 msg = "binary %s is written back as %s" % (lit, written)
+        elif sev >= 3 and assigned == 1 and not re.match(r'^"[0-9A-F]+"$', written):
+            # whatever was taken for a binary is written the way Part 21 spells one
+            msg = "token %r is read without an error and written back as %s, which is no BINARY literal" % (d, written)
+            m = None
         else:
             # anything read without an error must have been spelled: both quotes, hexadecimal digits between them, the value those digits
             if sev >= 3 and assigned == 1:
                 mm = re.match(r'^"([0-9A-Fa-f]+)"', body)
-                if not mm or mm.group(1) != val:
+                if not mm or mm.group(1).upper() != val:
                     msg = "token %r is read to the binary %s without an error although it does not spell it" % (d, val)
             # a token that is there (not $) and is no binary must not leave the attribute unset without an error
             if msg is None and sev >= 3 and assigned == 0 and body[:1] == DQ:
